@@ -247,6 +247,8 @@ func main() {
 		cmdAllotScale(os.Args[2:])
 	case "soups":
 		cmdSoups(os.Args[2:])
+	case "scale-sem":
+		cmdScaleSem(os.Args[2:])
 	case "conc":
 		cmdConc(os.Args[2:])
 	case "store-replay":
